@@ -51,8 +51,12 @@ BiasOK ==
       ok(e) == LET sc == RMul(Rat(V.sin), Rat(V.sw[V.ch[e]]))
                    v == RDiv(Rat(V.b[e]), sc)
                    q == RRint(v)
-                   \* the library divides in float32: exact below 2^20, a few units in the last place above
-                   tol == IF Abs(q) < 1048576 THEN (IF IsTie(v) THEN 1 ELSE 0) ELSE 1 + Abs(q) \div 1048576
+                   \* the library divides in float32 (relative error of a few 2^-24): above 2^20 that is a few units in the last
+                   \* place; below, the integer part is exact but a quotient whose fractional part is within |q| * 2^-19 of 1/2
+                   \* may fall on either side of the tie (v = f + d/(2*den) away from it, d = |2*frac*den - den|)
+                   d == Abs(2 * (v[1] - RFloor(v) * v[2]) - v[2])
+                   nearTie == Abs(q) >= 64 /\ d * (524288 \div (Abs(q) + 1)) <= v[2]
+                   tol == IF Abs(q) < 1048576 THEN (IF IsTie(v) \/ nearTie THEN 1 ELSE 0) ELSE 1 + Abs(q) \div 1048576
                IN Abs(V.codes[e] - q) <= tol \/ V.sat[e]
   IN [id |-> V.id, kind |-> "bias", elems |-> \A e \in 1..n : ok(e),
       firstbad |-> IF \A e \in 1..n : ok(e) THEN 0 ELSE CHOOSE e \in 1..n : ~ok(e)]
